@@ -26,12 +26,12 @@ package grpcmux
 
 //@ type grpcmux.blockedClientListener
 //@   immutable session, waitCh, doneCh   [C20.guard]
-//@   never_closed waitCh   [C20.send]
+//@   never_closed waitCh   [C20.send] [C08.mux-c]
 //@   writers grpcmux.newBlockedClientListener
 
 //@ type grpcmux.blockedServerListener
 //@   immutable addr, acceptCh, doneCh   [C20.guard]
-//@   never_closed acceptCh   [C20.send]
+//@   never_closed acceptCh   [C20.send] [C08.mux-s]
 //@   writers grpcmux.newBlockedServerListener
 
 //@ func grpcmux.NewGRPCServerMuxer
